@@ -706,6 +706,10 @@ def _iter_unused_names(
     # preserve presumably contains everything that any outer scope could be interested
     # in. So any name that is set but never accessed, and that is not in preserve, can
     # immediately be deleted.
+    # A global or nonlocal statement needs the name it declares to exist, even if nothing reads it
+    preserve = set(preserve) | {
+        name for node in core.walk(scope, (ast.Global, ast.Nonlocal)) for name in node.names
+    }
     names_in_scope = {name.id for name in core.walk(scope, ast.Name)}
     for name in names_in_scope - preserve:
         if not any(core.walk(scope, ast.Name(id=name, ctx=(ast.Load)))):
